@@ -96,4 +96,49 @@ theorem calcSlices_units_short (stop : SliceMode) (dims : List DimDesc) :
           simp only [he]
           exact ⟨e, rfl⟩
 
+/-- the common tail of the three `range_indices` never lets an `IndexError` through (it becomes `None`) -/
+theorem pairOrNone_no_indexError (a b : Except Err Int) : pairOrNone a b ≠ .error .indexError := by
+  unfold pairOrNone
+  cases a with
+  | error e => cases e <;> simp
+  | ok s =>
+    cases b with
+    | error e => cases e <;> simp
+    | ok e => by_cases h : s > e <;> simp [h]
+
+/-- in exact windows, two samples of an axis' descriptor with the same coordinate are both inside the window of
+that axis or both outside (axes with a position entry) -/
+theorem windowsExact_equal_coords (stop : SliceMode) (dims : List DimDesc) (shape : List Nat)
+    (pos ext scs : List Rat) (ws : List Win) (h : WindowsExact stop dims shape pos ext scs ws) :
+    ∀ (d : Nat) (dim : DimDesc) (w : Win), dims[d]? = some dim → ws[d]? = some w → d < pos.length →
+      ∀ i j : Nat, InDom (dimDom dim) i → InDom (dimDom dim) j → dimCoord dim i = dimCoord dim j →
+        ((w.1 ≤ (i : Int) ∧ (i : Int) < w.2) ↔ (w.1 ≤ (j : Int) ∧ (j : Int) < w.2)) := by
+  induction h with
+  | nil pos ext scs => intro d dim w hd; simp at hd
+  | pos dim0 dims n shape p pos ext sc scs a b ws hab hbn hdomw hexact hrest ih =>
+    intro d dim w hd hw hlt i j hi hj hc
+    cases d with
+    | zero =>
+      simp only [List.getElem?_cons_zero, Option.some.injEq] at hd hw
+      subst hd; subst hw
+      have e1 := hexact i hi
+      have e2 := hexact j hj
+      have hij : InRegion dim0 (regionOf stop p (nextExtent ext).1 sc) i ↔
+          InRegion dim0 (regionOf stop p (nextExtent ext).1 sc) j := by
+        unfold InRegion; rw [hc]
+      simp only []
+      constructor
+      · intro h1
+        have := e2.mp (hij.mp (e1.mpr ⟨by omega, by omega⟩))
+        omega
+      · intro h1
+        have := e1.mp (hij.mpr (e2.mpr ⟨by omega, by omega⟩))
+        omega
+    | succ d =>
+      simp only [List.getElem?_cons_succ] at hd hw
+      exact ih d dim w hd hw (by simpa using hlt) i j hi hj hc
+  | whole dim0 dims n shape ext scs ws hrest ih =>
+    intro d dim w hd hw hlt
+    simp at hlt
+
 end Nix.Tagging
